@@ -54,3 +54,92 @@ TRUSTED = [
     "the pointwise reference semantics written in the harness (a few lines per operation)",
     "replay on real lxml guards against false alarms only, not against missed violations",
 ]
+
+
+# ---------------------------------------------------------------- KT layer (typed-element layer)
+
+import ast as _ast
+import json as _json
+from pathlib import Path as _Path
+
+_H = _Path(__file__).resolve().parent.parent / "harness"
+KT_ENCODES = [
+    "src/odfdo/table.py:Table.{set_cell,set_value,insert_cell,append_cell,delete_cell,set_row,insert_row,append_row,delete_row,"
+    "set_row_values,insert_column,append_column,delete_column,get_value,get_row,get_cell,_get_row2,_get_row2_base,_update_width,"
+    "_translate_*_coordinates,_compute_table_cache,width,height,traverse,_yield_odf_rows}",
+    "src/odfdo/row.py:Row.{set_cell,set_value,insert_cell,append_cell,delete_cell,set_cells,set_values,extend_cells,get_cell,get_value,"
+    "_get_cell2,_get_cell2_base,traverse,get_values,get_cells,cells,width,_compute_row_cache,clone}",
+    "src/odfdo/element_cached.py (all)", "src/odfdo/utils/coordinates.py:convert_coordinates,increment,translate_from_any",
+]
+KT_STUBS = ["ktable.KBase: list/dict-backed replacements of the lxml-backed Element primitives (children list, attribute dict, "
+            "get_elements/_get_element_idx2/elements_repeated_sequence/index/insert/delete/extend/clear/clone/parent), fresh wrapper per lookup",
+            "ktable.IntCell/IntColumn: integer-valued leaves replacing odfdo.cell.Cell / odfdo.table.Column (payload, int repeat, x, y)",
+            "integer-valued repeated/_set_repeated accessors of KRow/IntCell/IntColumn (the string-valued real ones are exercised on symdom)"]
+
+
+def _timings():
+    p = _H / "timings.json"
+    return _json.loads(p.read_text()) if p.exists() else {}
+
+
+def _kt_index():
+    src = (_H / "h_ktab_gen.py").read_text()
+    return _ast.literal_eval(src[src.index("INDEX = ") + 8:])
+
+
+def ktab_obligations(which: int, quick_cap: float, quick_rd: str, templates=("tall", "wide")):
+    """Table-level KT obligations for conjunct set `which`.  Quick tier: the `quick_rd`
+    (nr = no cached read before the mutation, rd = cached reads first) variants whose measured
+    time is <= quick_cap seconds; everything else is thorough."""
+    db = _timings()
+    out = []
+    for fn, op, tname, gname, pname, rd in _kt_index():
+        if tname not in templates:
+            continue
+        if which == 10 and rd == "rd":
+            continue
+        t = db.get(f"h_ktab_gen.{fn}@{which}")
+        secs = t["secs"] if t and t["verdict"] == "holds" else None
+        quick = secs is not None and secs <= quick_cap and rd == quick_rd
+        timeout = int(max(90, 4 * secs)) if secs is not None else 900
+        out.append(Obl(
+            name=fn, module="h_ktab_gen", func=fn, timeout=timeout, tier="quick" if quick else "thorough",
+            replay="r_h_ktab:run", env={"VERIF_WHICH": str(which)},
+            extra={"op": op, "which": which, "pre_read": rd == "rd"},
+            weight=int(secs or 300),
+            bounds=f"template {tname} ({'row-runs' if tname == 'tall' else 'cell-runs' if tname == 'wide' else 'row- and cell-runs'} with unbounded symbolic repeats), "
+                   f"target partition {gname}, probe partition {pname}, cached reads before the mutation: {rd == 'rd'}; all other ints unbounded",
+            encodes=KT_ENCODES, stubs=KT_STUBS))
+    return out
+
+
+KROW = [
+    # (func, replay, measured secs all-conjuncts, tier)
+    ("krow_set_p0", "set_", 95, "quick"), ("krow_set_p1", "set_", 80, "quick"), ("krow_set_p2", "set_", 45, "quick"),
+    ("krow_set_none", "set_none", 28, "quick"), ("krow_set_value", "set_value", 50, "quick"),
+    ("krow_insert", "insert", 80, "quick"), ("krow_append", "append", 7, "quick"), ("krow_delete", "delete", 12, "quick"),
+    ("krow_set_cells2_p2", "set_cells2", 68, "quick"), ("krow_set_values2", "set_values2", 44, "quick"),
+    ("krow_negative", "negative", 26, "quick"),
+    ("krow_set_cells2_p0", "set_cells2", 600, "thorough"), ("krow_set_cells2_p1", "set_cells2", 190, "thorough"),
+    ("krow_set_n3", "set_", 900, "thorough"), ("krow_insert_n3", "insert", 280, "thorough"), ("krow_delete_n3", "delete", 33, "thorough"),
+]
+
+
+def krow_obligations(which: int):
+    out = []
+    for fn, rep, secs, tier in KROW:
+        out.append(Obl(name=fn, module="h_krow", func=fn, timeout=int(max(90, 4 * secs)), tier=tier,
+                       replay=f"r_h_krow:{rep}", env={"VERIF_WHICH": str(which)}, extra={"which": which}, weight=secs,
+                       bounds="row of 2 (n3: 3) cell-runs with unbounded symbolic repeats; positions, inserted repeats, probe unbounded",
+                       encodes=KT_ENCODES[1:3], stubs=KT_STUBS))
+    return out
+
+
+def krow_reader_obligations():
+    return [
+        Obl(name="krow_get_cell", module="h_krow", func="krow_get_cell", timeout=90, replay="r_h_krow:get_cell", weight=7,
+            bounds="row of 2 cell-runs, unbounded repeats/positions", encodes=KT_ENCODES[1:2], stubs=KT_STUBS),
+        Obl(name="krow_readers_small", module="h_krow", func="krow_readers_small", timeout=240, replay="r_h_krow:readers_small", weight=40,
+            bounds="row of 2 cell-runs, repeats <= 2, start/end <= 5 (expanding readers loop over every position)",
+            encodes=KT_ENCODES[1:2], stubs=KT_STUBS),
+    ]
